@@ -7,10 +7,12 @@ import numpy as np
 GROUPS = {"alp": ("ADMBASE", "admbase-lapse"), "betax": ("ADMBASE", "admbase-shift"),
           "betay": ("ADMBASE", "admbase-shift"), "betaz": ("ADMBASE", "admbase-shift"),
           "rho": ("HYDROBASE", "hydrobase-rho"),
+          "vel[0]": ("HYDROBASE", "hydrobase-vel"), "vel[1]": ("HYDROBASE", "hydrobase-vel"), "vel[2]": ("HYDROBASE", "hydrobase-vel"),
           "Bvec[0]": ("HYDROBASE", "hydrobase-bvec"), "Bvec[1]": ("HYDROBASE", "hydrobase-bvec"), "Bvec[2]": ("HYDROBASE", "hydrobase-bvec"),
           "foo": ("MYTHORN", "mythorn-stuff"), "bar": ("MYTHORN", "mythorn-stuff"), "baz": ("MYTHORN", "mythorn-stuff")}
 VARS_DEFAULT = ["alp", "betax", "betay", "betaz"]
 AUREL_NAME = {"alp": "alpha", "rho": "rho0"}
+VARS_VEL = ["alp", "betax", "betay", "betaz", "vel[0]", "vel[1]", "vel[2]"]      # with a vector whose file names carry brackets
 
 
 def vindex(v):
